@@ -208,9 +208,15 @@ class OverridableProbe(Probe):
     """
 
     def _make_rule(self, sel, probe_type):
-        if probe_type != "total" and (sel.focus or probe_type == "immediate"):
+        if probe_type != "total" and sel.focus:
             return Immediate(
                 sel, intercept=self._make_emitter(sel), pass_info=True
+            )
+        elif probe_type == "immediate":
+            # Only the focus variable can be overridden: without one the
+            # probe would silently never do anything
+            raise Exception(
+                "OverridableProbe requires a selector with a focus variable"
             )
         else:
             raise Exception(
